@@ -264,3 +264,75 @@ def check_extra(ctx, rep, base, execs, cfgs):
             rep.refuted("R-C65-lifecycle", init.module.relpath, init.qualname, "self._persistent_backend",
                         "persist=True leaves `self._persistent_backend` None while `_get_backend` returns it: every call raises", line=init.node.lineno)
     rep.floor("lifecycle obligations (drops of the persistent backend, _get_backend, constructor)", n_life, 3)
+
+
+def repo_backends(ctx, rep, base, execs):
+    """R-C65-backend: backends written in the repository itself (the serial backend, pool subclasses with extra methods)."""
+    ix = ctx.index
+    rep.rule("R-C65-backend", "every backend class the executors return from _exec_backend that is defined in the repository: its submit/map/starmap (a) never "
+             "inspect the type or attributes of the user's arguments / argument entries (isinstance, type, hasattr on elements of the data: they are "
+             "opaque values that must reach the function the way the built-in would pass them), and (b) build their result positionally — a "
+             "result list that worker tasks append to (a closure handed to submit that mutates a captured list) is in completion order")
+    n = 0
+    seen = set()
+    for c in execs:
+        f = c.own_method("_exec_backend")
+        if f is None:
+            continue
+        for r in [x.value for x in walk_shallow(f.node) if isinstance(x, ast.Return) and x.value is not None]:
+            try:
+                k = ix.resolve_expr(c.module, r)
+            except RecursionError:
+                k = None
+            if k is None or not hasattr(k, "methods") or id(k) in seen:
+                continue
+            seen.add(id(k))
+            for meth in ("submit", "map", "starmap"):
+                g = k.own_method(meth)
+                if g is None:
+                    continue
+                n += 1
+                rep.analysed(k.module.relpath, g.qualname)
+                a = g.node.args
+                params = {x.arg for x in a.posonlyargs + a.args + a.kwonlyargs} - {"self", "cls"}
+                if a.vararg:
+                    params.add(a.vararg.arg)
+                fnp = [x.arg for x in a.posonlyargs + a.args if x.arg not in ("self", "cls")]
+                fn_name = fnp[0] if fnp else None
+                data_params = params - {fn_name}
+                # element variables: loop / comprehension targets iterating over a data parameter
+                elems = set()
+                for x in ast.walk(g.node):
+                    if isinstance(x, (ast.For, ast.comprehension)):
+                        it_names = {y.id for y in ast.walk(x.iter) if isinstance(y, ast.Name)}
+                        if it_names & data_params:
+                            elems |= {y.id for y in ast.walk(x.target) if isinstance(y, ast.Name)}
+                bad = None
+                for x in ast.walk(g.node):
+                    if isinstance(x, ast.Call) and isinstance(x.func, ast.Name) and x.func.id in ("isinstance", "type", "hasattr", "callable", "len") and x.args \
+                            and isinstance(x.args[0], ast.Name) and x.args[0].id in elems and x.func.id != "len":
+                        bad = bad or (x, f"`{norm(x)}` makes the call depend on what an argument entry looks like: entries that are lists, arrays or ranges "
+                                         "are passed differently from tuples, unlike itertools.starmap / the built-in call")
+                # (b) completion-order gathering
+                nested = [y for y in ast.walk(g.node) if isinstance(y, ast.FunctionDef) and y is not g.node]
+                for nf in nested:
+                    submitted = any(isinstance(y, ast.Call) and isinstance(y.func, ast.Attribute) and y.func.attr in ("submit", "apply_async", "map")
+                                    and any(isinstance(z, ast.Name) and z.id == nf.name for z in y.args) for y in ast.walk(g.node))
+                    if not submitted:
+                        continue
+                    local_store = {z.id for z in ast.walk(nf) if isinstance(z, ast.Name) and isinstance(z.ctx, ast.Store)} | {z.arg for z in nf.args.args}
+                    for y in ast.walk(nf):
+                        if isinstance(y, ast.Call) and isinstance(y.func, ast.Attribute) and y.func.attr in ("append", "extend", "insert", "add", "put") \
+                                and isinstance(y.func.value, ast.Name) and y.func.value.id not in local_store:
+                            captured = y.func.value.id
+                            returned = any(isinstance(z, ast.Return) and z.value is not None and any(
+                                isinstance(w, ast.Name) and w.id == captured for w in ast.walk(z.value)) for z in walk_shallow(g.node))
+                            if returned:
+                                bad = bad or (y, f"worker tasks append their results to the captured list `{captured}`, which is then returned: results arrive "
+                                                 "in completion order, not in the order of the inputs")
+                where = f"{k.module.relpath}:{g.qualname}"
+                if bad:
+                    rep.refuted("R-C65-backend", k.module.relpath, g.qualname, bad[0], bad[1], line=bad[0].lineno)
+                else:
+                    rep.proved("R-C65-backend", where, "arguments are forwarded opaquely and results are gathered positionally")
+    rep.floor("methods of repository-defined backends", n, 3)
